@@ -6,6 +6,7 @@ package twopc
 
 import (
 	"fmt"
+	"io"
 	"math/big"
 
 	"github.com/markkurossi/mpc/circuit"
@@ -69,6 +70,8 @@ type Session struct {
 	OT    int
 	Pipe  simnet.PipeConfig
 	Trace bool
+	// GarbleRand, if set, wraps the garbler's randomness source.
+	GarbleRand func(io.Reader) io.Reader
 }
 
 // Out is what a session produced.
@@ -90,6 +93,9 @@ func Run(t *rt.Tape, s Session) *Out {
 	spy := &otSpy{OT: NewOT(s.OT, simrand.Stream("G-ot"))}
 	otE := NewOT(s.OT, simrand.Stream("E-ot"))
 	cfg := &env.Config{Rand: simrand.Stream("G-garble")}
+	if s.GarbleRand != nil {
+		cfg.Rand = s.GarbleRand(cfg.Rand)
+	}
 	o.RR = rt.Run(rt.Config{Trace: s.Trace, NoProgress: core.NoProgressDefault, OnCrash: func(party string, _ *rt.Task) {
 		// a crashed process loses its sockets
 		if party == "G" {
